@@ -2,7 +2,7 @@
 # usage: try_patch.sh <patch.diff> <prop> [prop...]  — apply the patch to a scratch copy of /repo and run the checks there
 set -uo pipefail
 P=$(realpath "$1"); shift
-S=/tmp/pp-scratch
+S=/tmp/pp-try
 mkdir -p $S; rm -rf $S/src $S/benches; cp -r /repo/src /repo/benches /repo/Cargo.toml /repo/Cargo.lock $S/ 2>/dev/null
 (cd $S && git init -q 2>/dev/null; patch -p1 -s < "$P") || { echo "patch failed"; exit 2; }
 HERE=$(cd "$(dirname "$0")/.." && pwd)
